@@ -47,11 +47,12 @@ class Ctx:
 class Task:
     """one unit of work run in a worker process: produces obligations (+ covers) and solves them"""
 
-    def __init__(self, name, fn=None, kind="function", **kw):
+    def __init__(self, name, fn=None, kind="function", keep=None, **kw):
         self.name = name
         self.fn = fn
         self.kind = kind
         self.kw = kw
+        self.keep = keep
 
     def build(self, ctx):
         """returns FuncResult-like object with .obligs, .covers"""
@@ -132,6 +133,8 @@ def _run_task(i):
         out["covers"].append({"name": prop + "/" + nm, "result": s, "time_s": round(time.time() - t1, 3)})
     from . import replay
     for ob in r.obligs:
+        if getattr(task, "keep", None) is not None and not task.keep(ob.name):
+            continue
         res = solve.solve_one(ob, ctx.timeout_ms, external=True, all_solvers=(ctx.tier == "thorough"))
         d = res.asdict()
         d["obligation"] = prop + "/" + ob.name
